@@ -3,6 +3,8 @@ package c15
 import (
 	"fmt"
 	"math"
+	"regexp"
+	"strconv"
 	"strings"
 	"testing"
 
@@ -44,6 +46,10 @@ func spelling(t *rapid.T, label string) spelled {
 	idx := rapid.IntRange(0, len(families[fam])-1).Draw(t, label+"idx")
 	u := families[fam][idx]
 	a := rapid.SampledFrom(u.aliases).Draw(t, label+"alias")
+	if rapid.IntRange(0, 5).Draw(t, label+"canonical") == 0 {
+		// the canonical name itself, exactly as pprof prints it (the only spelling of "M*GCU" vs "m*GCU")
+		return spelled{fam, idx, u.canon}
+	}
 	switch rapid.IntRange(0, 3).Draw(t, label+"case") {
 	case 1:
 		a = strings.ToUpper(a)
@@ -502,11 +508,13 @@ type reportCase struct {
 	Vals  []int64 // one single-frame sample per entry (flat == cum)
 	Mode  int     // 0 minimum (pprof's default), 1 auto, 2 explicit unit
 	ToIdx int
-	Div   int // divide_by
+	Div   int   // divide_by
+	Dur   int64 // profile duration in nanoseconds (0: none); the header then relates the total to it
 }
 
 func genReport(t *rapid.T) *reportCase {
-	c := &reportCase{From: spelling(t, "from"), Mode: rapid.IntRange(0, 2).Draw(t, "mode"), ToIdx: rapid.IntRange(0, 8).Draw(t, "toidx"), Div: rapid.SampledFrom([]int{1, 1, 1, 2, 3, 4, 7, 1000}).Draw(t, "divide_by")}
+	c := &reportCase{From: spelling(t, "from"), Mode: rapid.IntRange(0, 2).Draw(t, "mode"), ToIdx: rapid.IntRange(0, 8).Draw(t, "toidx"), Div: rapid.SampledFrom([]int{1, 1, 1, 2, 3, 4, 7, 1000}).Draw(t, "divide_by"),
+		Dur: rapid.OneOf(rapid.Just(int64(0)), rapid.Int64Range(1, 1e13), rapid.SampledFrom([]int64{1, 999, 1e9, 25e8, 49e5, 99e11 / 4, 36e11})).Draw(t, "duration")}
 	n := rapid.IntRange(1, 5).Draw(t, "n")
 	for i := 0; i < n; i++ {
 		// mantissa x a step of the family, so that entries land in different natural units
@@ -525,6 +533,7 @@ func reportProfile(c *reportCase, sign int64) *profile.Profile {
 	p := &profile.Profile{SampleType: []*profile.ValueType{{Type: "cpu", Unit: c.From.Text}}, PeriodType: &profile.ValueType{Type: "cpu", Unit: c.From.Text}, Period: 1}
 	m := &profile.Mapping{ID: 1, Start: 0x400000, Limit: 0x500000, File: "/bin/app", HasFunctions: true}
 	p.Mapping = []*profile.Mapping{m}
+	p.DurationNanos = c.Dur
 	for i, v := range c.Vals {
 		f := &profile.Function{ID: uint64(i + 1), Name: fmt.Sprintf("fn%d", i), SystemName: fmt.Sprintf("fn%d", i), Filename: "a.go"}
 		l := &profile.Location{ID: uint64(i + 1), Mapping: m, Address: 0x400100 + uint64(i)*16, Line: []profile.Line{{Function: f, Line: 1}}}
@@ -574,6 +583,40 @@ func checkReport(c *reportCase, o *vk.Obs) []string {
 		return errs
 	}
 	o.NonTrivial = len(c.Vals) >= 2
+	// header: "Duration: D, Total samples = T (P%)" relates the total to the duration for time-valued profiles
+	if c.Dur != 0 && c.From.Fam == 1 && c.Div == 1 {
+		var totalNs float64
+		for _, v := range c.Vals {
+			totalNs += math.Abs(float64(v)) * fu.factor
+		}
+		if totalNs >= 9e18 {
+			// the total does not fit an int64 number of nanoseconds: no representable answer
+			o.Label("duration-total-beyond-int64")
+			totalNs = -1
+		}
+		m := regexp.MustCompile(`Duration: [^\n]*Total samples = [^\n(]*\(\s*([0-9.e+-]+)%\)`).FindStringSubmatch(out)
+		if totalNs < 0 {
+			// skipped
+		} else if m == nil {
+			e.Addf("-top of a time-valued profile with a duration has no 'Duration: ..., Total samples = ... (P%%)' header:\n%.400s", out)
+		} else {
+			got, _ := strconv.ParseFloat(m[1], 64)
+			want := 100 * totalNs / float64(c.Dur)
+			tol := 0.0051
+			switch {
+			case m[1] == "100":
+				want, tol = 100, 0.0501
+			case want < 1:
+				tol = want*0.051 + 1e-12 // two significant digits
+			case want >= 1e6:
+				tol = 0.0051 + want*1e-9
+			}
+			if math.Abs(got-want) > tol*1.0000001 {
+				e.Addf("header says the total is %s%% of the duration; %v ns of samples over %d ns is %.6g%% (values %v %s)", m[1], totalNs, c.Dur, want, c.Vals, c.From.Text)
+			}
+			o.Label("duration-percentage")
+		}
+	}
 	// smallest non-zero magnitude of the report, in base units of the family
 	minMag := math.Inf(1)
 	for _, v := range c.Vals {
